@@ -13,6 +13,7 @@ use crate::util::{hash2, hash_of, Rng, J};
 
 pub const QSZ_TINY: u32 = 1;
 pub const QSZ_SMALL: u32 = 2;
+pub const QSZ_MEDIUM: u32 = 3;
 pub const GO_TO_END: isize = -1;
 
 #[derive(Clone, PartialEq, Eq, Hash, Debug)]
@@ -32,7 +33,7 @@ impl QInst {
         let mut rng = Rng::derive(seed, &[0x51, size as u64]);
         let m = rng.range(2, 3) as usize;
         let alpha = rng.range(2, 3) as usize;
-        let (lo, hi) = if size == QSZ_SMALL { (5, 8) } else { (3, 5) };
+        let (lo, hi) = if size == QSZ_MEDIUM { (8, 11) } else if size == QSZ_SMALL { (5, 8) } else { (3, 5) };
         let strings: Vec<Vec<u8>> = (0..m).map(|_| (0..rng.range(lo, hi)).map(|_| rng.below(alpha as u64) as u8).collect()).collect();
         let mut inst = QInst { strings, alpha, variant, gen: (seed, size), table: HashMap::new() };
         let start = vec![0u8; m];
